@@ -1,4 +1,6 @@
 """C02: connection lifecycle well-formed; never hangs under any link fault / close time / interleaving; reconnectable."""
+import os
+
 from hypothesis import strategies as st
 
 from props import c03_toc
@@ -136,6 +138,7 @@ def run_life(case):
         race = {'error': False, 'close': False}
         attempts = list(case['attempts']) + [{'fault': None, 'close_at': None, 'sync': case['attempts'][-1]['sync'] if case['attempts'] else False, 'final': True}]
         scf = SyncCrazyflie('sim://1', cf=cf)
+        aborted = False
         for ai, at in enumerate(attempts):
             # the device's parameter values differ from session to session
             for i_, p_ in enumerate(spec['param_toc']):
@@ -180,7 +183,8 @@ def run_life(case):
                     if not user['done']:
                         which = 'open_link' if user['open'] is None else 'close_link'
                         out.fail('life:sync-%s-never-returns' % which, '%s: events %r; threads %r' % (desc, [e[1] for e in rec.events[ev0:]], s.describe()))
-                        return out
+                        aborted = True
+                        break
                 else:
                     cf.open_link('sim://1')
                     if at.get('close_at') is not None:
@@ -200,19 +204,24 @@ def run_life(case):
                         s.sleep(5.0)
             except Deadlock as e:
                 out.fail('life:deadlock', '%s: %s' % (desc, repr(e)[:400]))
-                return out
+                aborted = True
+                break
             except Horizon as e:
                 out.fail('life:hang', '%s: %s' % (desc, repr(e)[:400]))
-                return out
+                aborted = True
+                break
             evs = [e[1] for e in rec.events[ev0:]]
             nerr = 1 if env.world.fault_fired else 0
+            if os.environ.get('C02_DEBUG'):
+                print('DEBUG attempt', ai, 'nerr', nerr, 'ctx', env.world.fault_context, 'evs', evs)
             if nerr and env.world.fault_context.get('dispatcher_busy'):
                 race['error'] = True
             env.world.fault_context = {}
             _check_events(out, evs, closes[0], nerr, desc, '')
             if s.deaths:
                 out.fail('life:thread-died:' + s.deaths[0][1][:70], '%s: %s' % (desc, s.deaths[0][2][-500:]))
-                return out
+                aborted = True
+                break
             if (nerr or closes[0]) and cf.link is not None:
                 out.fail('life:link-not-released', '%s: link still set after %s' % (desc, 'fault' if nerr else 'close'))
             send_lock = getattr(cf, '_send_lock', None)
